@@ -86,7 +86,26 @@ def num_candidates(rng, base, rs):
     out = list(c)
     out += ["5", "5.0", " 3 ", "1e3", "abc", "", "0x10", "1_0", "-2", "+4", "٣", "²", None, [1], {"a": 1}, "nan", "inf", b"5"]
     rng.shuffle(out)
-    return out
+    # numbers that already are instances of *another* restricted type (validated by that type, not by this one)
+    inst = []
+    for ref in [r for _, r in rs] + [0, 1]:
+        for d in (-1, 0, 1, 0.5):
+            for other in (jt.PositiveInt, jt.NonNegativeInt, jt.PositiveFloat, jt.NonNegativeFloat, jt.ClosedUnitInterval, jt.OpenUnitInterval):
+                try:
+                    inst.append(other(ref + d))
+                except (ValueError, TypeError, OverflowError):
+                    pass
+    inst += [t(x) for (k, t) in list(_T.items())[:40] if t is not None and k[0] in (int, float) for x in (k[1][0][1],) if _quiet_ok(t, x)]
+    rng.shuffle(inst)
+    return inst[:5] + out
+
+
+def _quiet_ok(t, x):
+    try:
+        t(x)
+        return True
+    except Exception:
+        return False
 
 
 def check_number(ctx, rng, base, rs, join):
@@ -100,6 +119,10 @@ def check_number(ctx, rng, base, rs, join):
     for v in num_candidates(rng, base, rs)[: 40 if ctx.tier == "thorough" else 22]:
         exp, vv = model_accept(base, rs, join, v)
         vclass = value_class(v)
+        if vclass.startswith("instance-of-other"):
+            if type(v) is tp:
+                continue
+            ctx.count("st.number.instance_of_other_restricted_type")
         # direct cast
         o = call(tp, v)
         ctx.count("mon.restricted_number.cast")
@@ -129,7 +152,7 @@ def check_number(ctx, rng, base, rs, join):
         if isinstance(v, (int, float)) and not (isinstance(v, float) and not math.isfinite(v)):
             text = json.dumps(v)
             exp_cfg, vv_cfg = exp, vv
-            for ch, oo in (("argv", call(p.parse_args, [f"--k={text}"])), ("config", call(p.parse_string, json.dumps({"k": v})))):
+            for ch, oo in (("argv", call(p.parse_args, [f"--k={text}"])), ("config", call(p.parse_string, json.dumps({"k": v}))), ("object", call(p.parse_object, {"k": v}))):
                 ctx.count(f"mon.restricted_number.parser.{ch}")
                 if not (oo.accepted or oo.rejected):
                     ctx.observe("escape (C03)", oo.brief())
@@ -153,6 +176,8 @@ def check_number(ctx, rng, base, rs, join):
 def value_class(v):
     if isinstance(v, bool):
         return "bool"
+    if isinstance(v, (int, float)) and type(v) not in (int, float):
+        return "instance-of-other-restricted-type/" + ("integral" if v == int(v) else "fractional")
     if isinstance(v, int):
         return "bigint" if abs(v) > 2**53 else "int"
     if isinstance(v, float):
@@ -171,6 +196,7 @@ def value_class(v):
 
 
 REGEXES = [r"^[a-z]+$", r"^\d{2,4}$", r"[0-9]", r"^(yes|no|null)$", r"^.*[^ ].*$", r"^[^@ ]+@[^@ ]+\.[^@ ]+$", r"^é+$", r"^\s*x\s*$", r"^[A-Z]{2}-\d+$", r"^(?i:true)$", r"^.{0,3}$"]
+STR_INST = [jt.NotEmptyStr("abc"), jt.NotEmptyStr("12"), jt.NotEmptyStr("a@b"), jt.Email("a@b.c"), jt.NotEmptyStr("éé"), jt.NotEmptyStr("true"), jt.NotEmptyStr("AB-12"), jt.NotEmptyStr("abcd")]
 STR_CANDS = ["abc", "ABC", "12", "12345", "1", "yes", "no", "null", "", " ", " x ", "x", "a@b.c", "a@b", "éé", "e", "AB-12", "ab-12", "true", "TRUE", "tRuE", "a1", "abcd", "1e3", "on", "~", "0x1F", "x\n", "multi\nline", "[1]", "{a: 1}", "- x", "'q'", '"q"', "#c", "a: b"]
 
 
@@ -183,8 +209,10 @@ def check_string(ctx, rng, rx):
     tp = _T[key]
     p = parser_for(tp, key)
     ctx.distinct(("regex", rx))
-    for v in STR_CANDS:
+    for v in STR_CANDS + [x for x in STR_INST if type(x) is not tp]:
         exp = re.match(rx, v) is not None
+        if type(v) is not str:
+            ctx.count("st.string.instance_of_other_restricted_type")
         o = call(tp, v)
         ctx.count("mon.restricted_string.cast")
         ctx.count("evaluations")
